@@ -9,14 +9,15 @@
    * that the plaquette list produced by the sweep satisfies [plaq_list_ok] for EVERY lattice (this is
      C01's sweep_partition / walk_consistent, in progress in Proofs/LatticeFacts.v); here it is a
      hypothesis, shown satisfiable by the Examples, and evaluated on every generated lattice by the harness;
-   * "clockwise_about is the table row in reverse cyclic order": proved here only as "same edge set, sorted
-     for its own exact comparator"; the cyclic-order relation is checked on the implementation (S);
+   * "clockwise_about is the table row in reverse cyclic order" is proved at vertices in generic position
+     ([generic_at]: no self-loop, no zero vector, no two edges in the same direction); elsewhere only
+     "same edge set, sorted for its own exact comparator";
    * the float arctan2 of the implementation versus the exact comparators (K with margin skip);
    * pickle transporting the state tuple (C09); an unpickled lattice starts in [cinit] because
      __setstate__ calls __init__, so C02_cache_history_independent applies to it verbatim. *)
 From Coq Require Import List ZArith Bool Arith Permutation Sorted.
 From Koala Require Import Model.Lattice Model.TableSpec Model.Cache Model.Queries.
-From Koala Require Import Proofs.TablesFacts Proofs.SortFacts Proofs.PlaqTablesFacts Proofs.CacheFacts Proofs.QueriesFacts.
+From Koala Require Import Proofs.TablesFacts Proofs.SortFacts Proofs.PlaqTablesFacts Proofs.CacheFacts Proofs.QueriesFacts Proofs.CyclicFacts Proofs.SweepShapeFacts.
 Import ListNotations.
 
 (* ---- clause: "for every vertex the incident-edge list is complete and in clockwise cyclic order
@@ -200,6 +201,22 @@ Theorem C02_query_clockwise_about : forall L v,
 Proof. exact clockwise_about_lemma. Qed.
 Print Assumptions C02_query_clockwise_about.
 
+(* "12 o'clock itself last" / "the positive x axis itself last": extreme keys of the two comparators *)
+Theorem C02_comparator_extremes :
+  (forall y w, (0 < y)%Z -> ang_lt w (0, y)%Z = false) /\
+  (forall x w, (0 < x)%Z -> ang2_lt (x, 0)%Z w = false).
+Proof. split. exact ang_lt_twelve_last. exact ang2_lt_xaxis_last. Qed.
+Print Assumptions C02_comparator_extremes.
+
+(* clockwise_about(v) is the table row of v in REVERSE CYCLIC order (the docstring says clockwise, the
+   behaviour is anticlockwise from the +x axis), at every vertex in generic position *)
+Theorem C02_query_clockwise_reverse_cyclic : forall L v,
+  (v < nV L)%nat -> generic_at L v = true ->
+  exists n, clockwise_edges_about L v =
+            skipn n (rev (nth v (adj_table L) [])) ++ firstn n (rev (nth v (adj_table L) [])).
+Proof. exact clockwise_reverse_cyclic_b. Qed.
+Print Assumptions C02_query_clockwise_reverse_cyclic.
+
 (* adjacent_plaquettes(lattice, n) = plaquette n's own adjacent_plaquettes paired with its edges, in edge
    order, INVALID entries dropped *)
 Theorem C02_query_adjacent_plaquettes : forall L ps n p,
@@ -215,6 +232,18 @@ Theorem C02_query_adjacent_plaquettes : forall L ps n p,
         flat_map (fun xe : option nat * nat => match fst xe with Some m => [snd xe] | None => [] end) (combine nbs (p_edges p))).
 Proof. exact q_adjacent_plaquettes_lemma. Qed.
 Print Assumptions C02_query_adjacent_plaquettes.
+
+(* part of the hypotheses that follows from the code of the sweep alone: every reported plaquette is a traced
+   walk that passed the filters, so it has one direction and one vertex per edge and no repeated edge.
+   (Dart disjointness, edge ids in range and "vertex i = tail of dart i" are C01's theorems.) *)
+Theorem C02_sweep_plaquettes_shape : forall L ps,
+  find_all_plaquettes L = Some ps ->
+  forall p, In p ps ->
+    from_valid_walk L p /\
+    length (p_dirs p) = length (p_edges p) /\ length (p_verts p) = length (p_edges p) /\
+    nodupb (p_edges p) = true.
+Proof. exact c02_sweep_plaquettes_shape. Qed.
+Print Assumptions C02_sweep_plaquettes_shape.
 
 (* ---- non-vacuity: the hypotheses hold for the plaquette lists the sweep really produces ---- *)
 (* open lattice: square with a diagonal plus an ISOLATED HIGHEST vertex 4; two triangles *)
@@ -236,7 +265,9 @@ Example C02_hypotheses_nonvacuous :
   (exists ps, find_all_plaquettes ExL2 = Some ps /\ length ps = 4%nat /\ wf_lattice ExL2 = true /\
               plaq_list_ok ExL2 ps = true /\ darts_disjoint ps = true /\ forallb (plaq_walk_ok ExL2) ps = true /\
               nth 0 (edges_plaquettes ExL2 ps) (None, None) = (Some 0, Some 1)%nat /\
-              pure_value ExL2 GetNPlaquettes = VNat 4).
+              pure_value ExL2 GetNPlaquettes = VNat 4 /\
+              forallb (generic_at ExL2) (seq 0 (nV ExL2)) = true /\
+              nth 0 (adj_table ExL2) [] = [0; 5; 1; 4]%nat /\ clockwise_edges_about ExL2 0 = [4; 1; 5; 0]%nat).
 Proof.
   split.
   - eexists. split. vm_compute. reflexivity. vm_compute. repeat split; reflexivity.
